@@ -98,7 +98,7 @@ def with_statement(src, recs, rng):
         return None
     target = rng.choice(rules)
     at = target['brace'] + 1
-    stmt = rng.choice(['@include zz', '@extend %y', '.mixin()', '@include m($a, 1px)'])
+    stmt = rng.choice(['@include zz', '@extend %y', '.mixin()', '@include m($a, 1px)', '@include m((a: 1), $b: 2)', '.mix(f(1), @c: 2)'])     # (colons at depth 1 after an inner pair has closed)
     ins = rng.choice([' ', '\n  ']) + stmt + ';'
     L = len(ins)
     js = to_json(recs)
